@@ -181,7 +181,10 @@ CLAIMED = {
              "buffer is bounded by 64 KiB for every chunk size (scratch_bounded); the contract is inhabited (storeCodec_sound). Decision on "
              "the implementation: identical call sequences on plain/gzip/xz writers (name and descriptor targets, chunks 0 B..8 MiB quick, "
              "64 MiB thorough, rotations); each compressed output must be one complete stream with its suffix decompressing (Python "
-             "zlib/lzma) to the plain output; plus end-to-end exporter sessions.",
+             "zlib/lzma) to the plain output; plus end-to-end exporter sessions. "
+             "The model loops are tied to the code: deflate / lzma_code are interposed in the harness, every call logged, and the model - run against a "
+             "codec that replays the recorded answers (driver cw) - must make exactly the calls the library made (bytes offered, finish flag, output "
+             "space) and hand the same number of bytes to the inner writer.",
         note="Partial: zlib/liblzma satisfying the contract and loop termination (compressor progress) are assumed, validated only by "
              "decompression with independent implementations; no model-vs-implementation replay of the deflate calls yet.",
         technique="Lean 4 proof parametric in an abstract codec contract + differential decompression oracle", design="§4 C14"),
